@@ -113,6 +113,7 @@ func violation(class, f string, a ...any) Result {
 
 // Property is one checkable property.
 type Property struct {
+	MemLimitGB int // >0: worker processes run with this bound on their address space (RLIMIT_AS)
 	ID    string
 	Level string // exploration | fault_enumeration
 	Rule  string // how cases are generated and what makes one non-trivial
